@@ -177,7 +177,7 @@ if __name__ == '__main__':
         # refresh result.json of every committed seeded change: its own property's check plus the related checks listed here
         ALSO = {'C07/1': ['C05'], 'C13/3': ['C12'], 'C13/2': ['C12'], 'C02/r2-1': ['C01'], 'C02/r2-2': ['C01', 'C11'], 'C05/r2-3': ['C06'],
                 'C06/r2-3': ['C07'], 'C03/r2-1': ['C01'], 'C03/r2-2': ['C11', 'C01'], 'C03/r2-3': ['C07'], 'C10/r2-3': ['C01'],
-                'C07/r2-1': ['C05'], 'C07/r2-3': ['C05'], 'C07/r3-3': ['C05'], 'C07/r4-2': ['C05'], 'C15/r4-1': ['C11'], 'C15/r4-3': ['C11']}
+                'C07/r2-1': ['C05'], 'C07/r2-3': ['C05'], 'C07/r3-3': ['C05'], 'C07/r4-2': ['C05'], 'C15/r4-1': ['C11'], 'C15/r4-3': ['C11'], 'C13/r5-3': ['C19']}
         only = sys.argv[2:]
         root = os.path.join(VERIF, 'seeded')
         jobs = []
